@@ -169,6 +169,19 @@ TH.EXTRA.update({
         CNTIN(z3.Store(_qs, _qx, True), _qr, _qn) == CNTIN(_qs, _qr, _qn) + z3.If(z3.And(_ksize(_qx) == _qn, _qr[_qx]), 1, 0)),
         patterns=[CNTIN(z3.Store(_qs, _qx, True), _qr, _qn)]),
 })
+# cnt_shape(B, s, t): entries of a list (bag) of hyperedges with exactly s sources and t targets (hyperedge signature, C12)
+CNTSH = z3.Function("cnt_shape_d", z3.ArraySort(DK.sort(), T.I), T.I, T.I, T.I)
+_qt = z3.Int("_qt")
+TH.EXTRA.update({
+    "cnt_shape_d_empty (definition)": z3.ForAll([_qn, _qt], CNTSH(z3.K(DK.sort(), z3.IntVal(0)), _qn, _qt) == 0,
+                                                patterns=[CNTSH(z3.K(DK.sort(), z3.IntVal(0)), _qn, _qt)]),
+    "cnt_shape_d_step (definition)": z3.ForAll([_qb, _qx, _qn, _qt], CNTSH(z3.Store(_qb, _qx, _qb[_qx] + 1), _qn, _qt) == CNTSH(_qb, _qn, _qt) +
+                                               z3.If(z3.And(TH.tlen(DK.fst(_qx)) == _qn, TH.tlen(DK.snd(_qx)) == _qt), 1, 0),
+                                               patterns=[CNTSH(z3.Store(_qb, _qx, _qb[_qx] + 1), _qn, _qt)]),
+})
+VIEWS["cnt_shape"] = lambda eng, p, h, B, s, t: T.sv_int(CNTSH(B.t, eng.coerce(s, T.INT).t, eng.coerce(t, T.INT).t))
+VIEWS["flat"] = lambda eng, p, h, i, j, c: T.sv_int(TH.FLAT(eng.coerce(i, T.INT).t, eng.coerce(j, T.INT).t, eng.coerce(c, T.INT).t))
+VIEWS["flatlen"] = lambda eng, p, h, r, c: T.sv_int(TH.FLATLEN(eng.coerce(r, T.INT).t, eng.coerce(c, T.INT).t))
 VIEWS["cnt_in"] = lambda eng, p, h, S, P, s: T.sv_int(CNTIN((S.dom if isinstance(S.ty, T.Map) else S.t), P.t, eng.coerce(s, T.INT).t))
 VIEWS["cnt_size"] = lambda eng, p, h, B, s: T.sv_int(CNTSZ(B.t, eng.coerce(s, T.INT).t))
 VIEWS["cnt_rev"] = lambda eng, p, h, S, R, s: T.sv_int(CNTRV((S.dom if isinstance(S.ty, T.Map) else S.t), (R.dom if isinstance(R.ty, T.Map) else R.t), eng.coerce(s, T.INT).t))
@@ -514,6 +527,7 @@ CONTRACTS = [
           "weighted": "weighted(self) == weighted(old(self))", "HM": "HM(self) == HM(old(self))"}}),
     C("num_nodes", params={}, result="Int", pure=True, ensures={"result": "result == card(V(self))"}),
     C("num_edges", params={}, result="Int", pure=True, ensures={"result": "result == card(E(self))"}),
+    C("__len__", params={}, result="Int", pure=True, ensures={"result": "result == card(E(self))"}, properties=["C10"]),
     C("is_uniform", params={}, result="Bool", pure=True, locals={"sz": "Opt[Int]", "uniform": "Bool"},
       requires={"wf": "wf(self)"},
       ensures={"result": "result == all(len(fst(k1)) + len(snd(k1)) == len(fst(k2)) + len(snd(k2)) for k1 in E(self) for k2 in E(self))"},
@@ -720,3 +734,43 @@ def _em_exact(p, cx):
     i = old.fields["_edge_list"].val[k]
     return z3.And(cur.fields["_edge_metadata"].dom == z3.Store(old.fields["_edge_metadata"].dom, i, True),
                   cur.fields["_edge_metadata"].val == z3.Store(old.fields["_edge_metadata"].val, i, p.env["metadata"].t))
+
+
+# ------------------------------------------------------------------ hypergraphx/measures/directed/hyperedge_signature.py (C12)
+# cell (s, t) of the (m-1) x (m-1) table, flattened row-major, counts exactly the stored hyperedges with s sources and t targets among those
+# of total size <= m (the listing handed out by get_edges(size=m, up_to=True): every such hyperedge once); numpy arrays by their assumed contract
+CONTRACTS += [
+    Contract("hyperedge_signature_vector@bound", "hypergraphx/measures/directed/hyperedge_signature.py", ["hyperedge_signature_vector"], properties=["C12"],
+      params={"hypergraph": "Obj[DirectedHypergraph]", "max_hyperedge_size": "Int"}, result="Seq[Real]", pure=True,
+      requires={"wf": "wf(hypergraph)"},
+      raises={"ValueError": "max_hyperedge_size < 1"},
+      ensures={
+          "listing": 'all(count(local("_iterated0"), k) == (1 if k in E(hypergraph) and len(fst(k)) + len(snd(k)) <= max_hyperedge_size else 0) for k in Key)',
+          "len": "len(result) == flatlen(hypergraph, max_hyperedge_size - 1, max_hyperedge_size - 1)",
+          "cells": 'all(implies(1 <= s and s < max_hyperedge_size and 1 <= t and t < max_hyperedge_size, '
+                   'result[flat(hypergraph, s - 1, t - 1, max_hyperedge_size - 1)] == real(cnt_shape(hypergraph, local("_iterated0"), s, t))) for s in Int for t in Int)'},
+      invariants={0: {"shape": "signature._r == max_hyperedge_size - 1 and signature._c == max_hyperedge_size - 1",
+                      "dom": "all((pair(i, j) in signature._m) == (0 <= i and i < max_hyperedge_size - 1 and 0 <= j and j < max_hyperedge_size - 1) for i in Int for j in Int)",
+                      "cells": "all(implies(1 <= s and s < max_hyperedge_size and 1 <= t and t < max_hyperedge_size, "
+                               "signature._m[pair(s - 1, t - 1)] == real(cnt_shape(hypergraph, _done0, s, t))) for s in Int for t in Int)"}}),
+]
+
+MLOC = 'local("max_hyperedge_size", "Int")'
+CONTRACTS += [
+    # without a bound the largest total size is used (every hyperedge is counted); no hyperedge at all: the empty vector
+    Contract("hyperedge_signature_vector@default", "hypergraphx/measures/directed/hyperedge_signature.py", ["hyperedge_signature_vector"], properties=["C12"],
+      params={"hypergraph": "Obj[DirectedHypergraph]", "max_hyperedge_size": "Opt[Int]"}, fixed={"max_hyperedge_size": None}, result="Seq[Real]", pure=True,
+      requires={"wf": "wf(hypergraph)"},
+      ensures={
+          "empty": "implies(card(E(hypergraph)) == 0, len(result) == 0)",
+          "bound": f"implies(card(E(hypergraph)) != 0, any(k in E(hypergraph) and len(fst(k)) + len(snd(k)) == {MLOC} for k in Key) and "
+                   f"all(len(fst(k)) + len(snd(k)) <= {MLOC} for k in E(hypergraph)))",
+          "listing": 'implies(card(E(hypergraph)) != 0, all(count(local("_iterated0", "Bag[Pair[Tup,Tup]]"), k) == (1 if k in E(hypergraph) else 0) for k in Key))',
+          "len": f"implies(card(E(hypergraph)) != 0, len(result) == flatlen(hypergraph, {MLOC} - 1, {MLOC} - 1))",
+          "cells": f'implies(card(E(hypergraph)) != 0, all(implies(1 <= s and s < {MLOC} and 1 <= t and t < {MLOC}, '
+                   f'result[flat(hypergraph, s - 1, t - 1, {MLOC} - 1)] == real(cnt_shape(hypergraph, local("_iterated0", "Bag[Pair[Tup,Tup]]"), s, t))) for s in Int for t in Int))'},
+      invariants={0: {"shape": "signature._r == max_hyperedge_size - 1 and signature._c == max_hyperedge_size - 1",
+                      "dom": "all((pair(i, j) in signature._m) == (0 <= i and i < max_hyperedge_size - 1 and 0 <= j and j < max_hyperedge_size - 1) for i in Int for j in Int)",
+                      "cells": "all(implies(1 <= s and s < max_hyperedge_size and 1 <= t and t < max_hyperedge_size, "
+                               "signature._m[pair(s - 1, t - 1)] == real(cnt_shape(hypergraph, _done0, s, t))) for s in Int for t in Int)"}}),
+]
